@@ -18,8 +18,11 @@ from framework.registry import target, job, PROPS, COMMON_ASSUME
 #    the *documented* pattern (pattern of A / level-of-fill recursion / pattern of A^(k+1)); entries the code dropped because
 #    they are exactly zero count as zeros.  ILUT has no documented pattern: only apply == (LU)^-1, the fixed point, and
 #    exactness on no-fill matrices when nothing may be dropped (tau = 0, or a posteriori "every entry of A was kept").
-#  * Chebyshev with power iterations: the ellipse is read back through the accessor (thread dependent start vector), the
-#    polynomial identity is asserted for those bounds; with Gershgorin the bounds are recomputed independently.
+#  * Chebyshev with power iterations (both scalings, power_iters in {1,2,5,10} for every system): the ellipse read back through the
+#    accessor must be [est*lower, est*higher] with est = backend::spectral_radius<scale>(A, power_iters) called by the harness (the
+#    estimator the parameter names; compared in 1-thread processes only, the start vector is thread seeded) and its upper end must not
+#    exceed higher * sigma_max(A resp. D^-1 A) (dense SVD; holds for every power-method estimate).  The polynomial identity is asserted
+#    for the read-back bounds; with Gershgorin the bounds are recomputed independently.
 # ---------------------------------------------------------------------------
 target('c06', ['harness/c06_real.cpp', 'harness/c06_complex.cpp', 'harness/c06_block.cpp'])
 target('c06rat', ['harness/c06_rational.cpp'])
@@ -54,7 +57,8 @@ PROPS['C06'] = dict(
          'A case is non-trivial when the matrix has an off-diagonal entry; distinct = distinct (sub-check, descriptor) hash.',
     exhaustive_note='ilu_small (all 2^12 directed 4-vertex patterns; every 509th / 31st 5-vertex pattern), ilu0_rational (all 2^12 4-vertex patterns x 2 value classes, exact)',
     min_nontrivial=dict(quick=5000, thorough=30000),
-    require_obs=dict(quick=['gs_parallel_objects', 'ilu_level_scheduled_objects'], thorough=['gs_parallel_objects', 'ilu_level_scheduled_objects']),
+    require_obs=dict(quick=['gs_parallel_objects', 'ilu_level_scheduled_objects', 'cheb_power_scaled_compared', 'cheb_power_unscaled_compared'],
+                     thorough=['gs_parallel_objects', 'ilu_level_scheduled_objects', 'cheb_power_scaled_compared', 'cheb_power_unscaled_compared']),
     assumptions=COMMON_ASSUME + ['matrices have sorted rows and a non-zero, dominant diagonal (no pivot breakdown)'],
     technique='dense long-double reference of each documented splitting applied to single sweeps of the real smoothers; bitwise fixed-point oracle on '
               'integer data; ILU factors read through the guarded accessor and compared with A on the documented pattern; exact rational '
